@@ -382,12 +382,49 @@ func noLockLeftHeld(r *R) {
 		if _, ok := lockWrappers[fname(fn)]; ok {
 			continue
 		}
+		// helpers the reference tree does not have: one that only locks is a lock wrapper (its callers are judged
+		// without that lock); one that unlocks releases, in its caller, the mutex its argument names
+		unlocksAny := false
+		releasedByHelper := map[string]bool{}
+		eachInstr(fn, func(ins ssa.Instruction) {
+			c, ok := ins.(ssa.CallInstruction)
+			if !ok {
+				return
+			}
+			switch calleeName(c.Common()) {
+			case "(*sync.Mutex).Unlock", "(*sync.RWMutex).Unlock", "(*sync.RWMutex).RUnlock":
+				unlocksAny = true
+			}
+			g := staticCallee(c.Common())
+			if g == nil || !isNewHelper(g) || len(g.Blocks) == 0 {
+				return
+			}
+			eachInstr(g, func(in2 ssa.Instruction) {
+				c2, ok := in2.(ssa.CallInstruction)
+				if !ok {
+					return
+				}
+				switch calleeName(c2.Common()) {
+				case "(*sync.Mutex).Unlock", "(*sync.RWMutex).Unlock", "(*sync.RWMutex).RUnlock":
+					d := describe(c2.Common().Args[0])
+					for i, a := range c.Common().Args {
+						pre := fmt.Sprintf("$%d", i)
+						if d == pre || strings.HasPrefix(d, pre+".") {
+							releasedByHelper[describe(a)+strings.TrimPrefix(d, pre)] = true
+						}
+					}
+				}
+			})
+		})
+		if isNewHelper(fn) && !unlocksAny && len(deferred) == 0 && len(deferredSuffix) == 0 {
+			continue // a lock wrapper
+		}
 		ls := lockset(fn)
 		var why []string
 		pos := fn.Pos()
 		for _, ret := range returnsOf(fn) {
 			for m := range ls[ret] {
-				if deferred[m] {
+				if deferred[m] || releasedByHelper[m] {
 					continue
 				}
 				if i := strings.LastIndex(m, "."); i >= 0 && deferredSuffix[m[i:]] {
